@@ -65,7 +65,14 @@ pub fn examine(c: &ServerCase) -> Exam {
     let bufsize = BUFSIZES[c.buf as usize % BUFSIZES.len()] as usize;
     let bytes = c.req.render(bufsize);
     if via_binary(c) {
-        if let Some(out) = inproc::serve_binary(&bytes) {
+        let answer = match inproc::serve_binary_checked(&bytes) {
+            inproc::BinaryAnswer::Served(o) => Some(o),
+            // the server said nothing, twice, while the connection stayed open: judged as what it is - a connection that was not answered
+            // (requests whose bytes end without a blank line are complete as far as the client is concerned: nothing more will come)
+            inproc::BinaryAnswer::Silent => Some(ServeOut { out: vec![], result: Ok(Ok(())), write_calls: 0, flush_calls: 0 }),
+            inproc::BinaryAnswer::Unavailable => None,
+        };
+        if let Some(out) = answer {
             let line = classify_request_line(&bytes[..bytes.len().min(bufsize)]);
             let resp = mhttp::parse(&out.out);
             let no_body_by_method = match &line {
